@@ -1,8 +1,8 @@
-\* exhaustive, all actions: block + 2 components + 1 pool id, 2 parameters x 2 values, nesting <= 2
-CONSTANTS N = 4  Par = {"p", "q"}  NVal = 2  NGrid = 2  MaxDepth = 2  MaxLevel = 6
+\* exhaustive, ALL actions together: block + 2 components + 1 pool id, 2 parameters x 2 values, nesting <= 2 (quick)
+CONSTANTS N = 4  Par = {"p", "q"}  NVal = 2  NGrid = 2  MaxDepth = 2  MaxLevel = 4
           GridSlot = "stack"  PickleSerial = "fresh"
 CONSTANTS Keeps <- KeepsSmall  Acts <- ActsAll  Parent0 <- ParentA  Cls0 <- ClsA
-          ParOf <- McParOf  InPlace <- McInPlace  GridCls <- McGridCls  MatCls <- McMatCls
+          ParOf <- McParOf  GridCls <- McGridCls  MatCls <- McMatCls
 INIT Init
 NEXT Next
 CONSTRAINT Bound
@@ -15,13 +15,13 @@ INVARIANT GateSound
 INVARIANT CacheNoLeak
 INVARIANT SerialsUnique
 INVARIANT SerialsBelowNext
-PROPERTY ExitRestores
-PROPERTY ExitRestoresGrid
-PROPERTY EnterKeepsValues
-PROPERTY CopyEqual
-PROPERTY OnlyTargetChanges
-PROPERTY SerialFresh
-PROPERTY ReadOnlyRefuses
-PROPERTY ReadOnlyForever
-PROPERTY RefusalsChangeNoValue
+INVARIANT ExitRestores
+INVARIANT ExitRestoresGrid
+INVARIANT EnterKeepsValues
+INVARIANT CopyEqual
+INVARIANT OnlyTargetChanges
+INVARIANT SerialFresh
+INVARIANT ReadOnlyRefuses
+INVARIANT ReadOnlyForever
+INVARIANT RefusalsChangeNoValue
 CHECK_DEADLOCK FALSE
